@@ -62,14 +62,15 @@ Definition parse_i64 (s : bytes) : option Z :=
   end.
 
 (** unsigned types do not accept a leading '-' (not even "-0") *)
+Definition starts_with_minus (s : bytes) : bool :=
+  match s with c :: _ => (c =? 45)%N | [] => false end.
+
 Definition parse_u64 (s : bytes) : option Z :=
-  match s with
-  | 45%N :: _ => None
-  | _ => match parse_int s with
-         | Some z => if (0 <=? z) && (z <=? u64_hi) then Some z else None
-         | None => None
-         end
-  end.
+  if starts_with_minus s then None
+  else match parse_int s with
+       | Some z => if (0 <=? z) && (z <=? u64_hi) then Some z else None
+       | None => None
+       end.
 
 (** * Float parsing: [str::parse::<f64>] (core::num::dec2flt), correctly rounded *)
 
@@ -374,19 +375,9 @@ Definition heap_before {A} (cmp : A -> A -> comparison) (ascending : bool)
            (x y : nat * A) : bool :=
   match heap_item_cmp cmp ascending x y with Gt => true | _ => false end.
 
-(** [OrderedStreamMerger::spawn(.., ascending, offset, limit, ..)] on the rows of
-    the receivers (batch boundaries are not observable in the row sequence) *)
-Definition merger_run (ascending : bool) (offset : N) (limit : option N)
-           (streams : list (list row)) : list row :=
-  merger_loop (heap_before row_cmp ascending) (total_len streams) streams offset limit 0%N.
-
 (** direction-adjusted comparator used by the per-flow sort *)
 Definition dir_cmp {A} (cmp : A -> A -> comparison) (ascending : bool) (a b : A) : comparison :=
   if ascending then cmp a b else CompOpp (cmp a b).
-
-(** per-flow: collect, sort, truncate to the flow limit (None when ORDER BY defers it) *)
-Definition flow_sort (ascending : bool) (lim : option N) (rows : list row) : list row :=
-  take_opt lim (sort_by (dir_cmp row_cmp ascending) rows).
 
 (** [StreamingContext::effective_limit] *)
 Definition effective_limit (limit offset : option N) : option N :=
@@ -395,17 +386,37 @@ Definition effective_limit (limit offset : option N) : option N :=
   | None => None
   end.
 
-(** shard level (engine/query/streaming/merger.rs): offset 0, limit n+m *)
-Definition shard_ordered (ascending : bool) (limit offset : option N)
-           (flows : list (list row)) : list row :=
-  merger_run ascending 0%N (effective_limit limit offset)
-             (map (flow_sort ascending None) flows).
+Section OrderedPath.
+  Context {A : Type}.
+  Variable cmp : A -> A -> comparison.
 
-(** coordinator (merge/streaming.rs): offset m, limit n, applied once *)
-Definition coord_ordered (ascending : bool) (limit offset : option N)
-           (shards : list (list (list row))) : list row :=
-  merger_run ascending (match offset with Some o => o | None => 0%N end) limit
-             (map (shard_ordered ascending limit offset) shards).
+  (** [OrderedStreamMerger::spawn(.., ascending, offset, limit, ..)] on the rows of
+      the receivers (batch boundaries are not observable in the row sequence) *)
+  Definition merger_run_g (ascending : bool) (offset : N) (limit : option N)
+             (streams : list (list A)) : list A :=
+    merger_loop (heap_before cmp ascending) (total_len streams) streams offset limit 0%N.
+
+  (** per-flow: collect, sort, truncate to the flow limit (None when ORDER BY defers it) *)
+  Definition flow_sort_g (ascending : bool) (lim : option N) (rows : list A) : list A :=
+    take_opt lim (sort_by (dir_cmp cmp ascending) rows).
+
+  (** shard level (engine/query/streaming/merger.rs): offset 0, limit n+m *)
+  Definition shard_ordered_g (ascending : bool) (limit offset : option N)
+             (flows : list (list A)) : list A :=
+    merger_run_g ascending 0%N (effective_limit limit offset)
+                 (map (flow_sort_g ascending None) flows).
+
+  (** coordinator (merge/streaming.rs): offset m, limit n, applied once *)
+  Definition coord_ordered_g (ascending : bool) (limit offset : option N)
+             (shards : list (list (list A))) : list A :=
+    merger_run_g ascending (match offset with Some o => o | None => 0%N end) limit
+                 (map (shard_ordered_g ascending limit offset) shards).
+End OrderedPath.
+
+Definition merger_run := merger_run_g row_cmp.
+Definition flow_sort := flow_sort_g row_cmp.
+Definition shard_ordered := shard_ordered_g row_cmp.
+Definition coord_ordered := coord_ordered_g row_cmp.
 
 (** * The response writer (unordered path and final dedup) *)
 
@@ -488,7 +499,10 @@ Definition is_boollike (v : value) : bool :=
 
 (** strings that none of the numeric / boolean accessors accept *)
 Definition plain_string (s : bytes) : bool :=
-  match parse_f64 s, as_bool (VStr s) with None, None => true | _, _ => false end.
+  match parse_u64 s, parse_i64 s, parse_f64 s, as_bool (VStr s) with
+  | None, None, None, None => true
+  | _, _, _, _ => false
+  end.
 
 Definition is_plainstr (v : value) : bool :=
   match v with VNull => true | VStr s => plain_string s | _ => false end.
@@ -534,3 +548,24 @@ Definition all_kinds : list kind := [KInt; KU64; KFloat; KBool; KStr].
 (** a column (list of keys) is coherent when one kind covers all its values *)
 Definition coherent (vs : list value) : bool :=
   existsb (fun k => forallb (in_kind k) vs) all_kinds.
+
+(** * Known-finding classes of incoherent sort columns (see Props/C10.v) *)
+Inductive order_class := NumericLookingStrings | NumericMixed | MixedKinds.
+
+Definition is_strnull (v : value) : bool :=
+  match v with VNull | VStr _ => true | _ => false end.
+Definition is_numnull (v : value) : bool :=
+  match v with VNull | VInt _ | VTs _ | VFloat _ _ => true | _ => false end.
+
+(** [None]: one kind covers the column and [scalar_compare] is its typed order.
+    - [NumericLookingStrings]: a string column in which some value is accepted by a
+      numeric or boolean accessor ("9" "10" "1a"; "true" "1" "x"; "nan").
+    - [NumericMixed]: Int64 / Timestamp cells together with Float64 cells (an
+      integer beyond 2^53 rounds when compared with a float), or a NaN.
+    - [MixedKinds]: any other mixture of runtime kinds in one column (arises from
+      the string re-typing after FLUSH, C07). *)
+Definition classify_column (vs : list value) : option order_class :=
+  if coherent vs then None
+  else if forallb is_strnull vs then Some NumericLookingStrings
+  else if forallb is_numnull vs then Some NumericMixed
+  else Some MixedKinds.
